@@ -150,6 +150,7 @@ class Task:
         self.thread: threading.Thread | None = None
         self.steps = 0
         self.access_events = 0
+        self.fs_events = 0
         self.prio = 0
         self._parked = threading.Event()
 
@@ -213,7 +214,10 @@ class PCTAccessPolicy(Policy):
 
     def __init__(self, prios: list[int], points: list) -> None:
         self.prios = list(prios)
-        self.points = {(int(t), int(n)) for t, n in points}
+        # (task, n) = n-th access line; (task, n, "fs") = n-th fs call
+        self.points = {(int(p[0]), int(p[1])) for p in points if len(p) == 2}
+        self.fs_points = {(int(p[0]), int(p[1])) for p in points
+                          if len(p) == 3}
         self._low = -1
         self.index: dict = {}
 
@@ -224,9 +228,11 @@ class PCTAccessPolicy(Policy):
         self.sched = tasks[0].sched if tasks else None
 
     def pick(self, step, label, cur, runnable):
-        if cur is not None and self.sched is not None and \
-                self.sched.last_access and \
-                (self.index.get(cur), cur.access_events) in self.points:
+        if cur is not None and self.sched is not None and ((
+                self.sched.last_access and
+                (self.index.get(cur), cur.access_events) in self.points) or (
+                self.sched.last_fs and
+                (self.index.get(cur), cur.fs_events) in self.fs_points)):
             cur.prio = self._low
             self._low -= 1
         best = runnable[0]
@@ -306,6 +312,7 @@ class Scheduler:
         self.active = False
         self.interesting_switches = 0
         self.last_access = False
+        self.last_fs = False
         self.atomic = False          # True while an observer op runs inline
         self.on_switch = None        # callable(prev_task|None, next_task|None)
 
@@ -417,7 +424,7 @@ class Scheduler:
                 raise SimAbort()
 
     def yield_point(self, label: str, interesting: bool = False,
-                    access: bool = False) -> None:
+                    access: bool = False, fs: bool = False) -> None:
         """Called by task threads at every event.  ``access``: the event
         is a source line that touches state shared between tasks."""
         me = self.current()
@@ -429,7 +436,10 @@ class Scheduler:
         me.steps += 1
         if access:
             me.access_events += 1
+        if fs:
+            me.fs_events += 1
         self.last_access = access
+        self.last_fs = fs
         self.log.add("ev", self.step, me.name, label)
         if self.step > self.max_steps:
             self.failure = StepLimit(f"more than {self.max_steps} events")
